@@ -70,6 +70,12 @@ impl World {
         };
         #[cfg(feature = "xen")]
         let m = new_mapping(len as usize);
+        // attributes that have nothing to do with the guest address range
+        #[allow(unused_mut)]
+        let mut m = m;
+        if id % 4 == 1 {
+            m.set_hugetlbfs(id % 8 == 1);
+        }
         let p = m.as_ptr();
         let bytes: Vec<u8> = (0..len as usize).map(|i| pat(id, 0, i)).collect();
         for (i, b) in bytes.iter().enumerate() {
@@ -374,7 +380,10 @@ fn history(case: u64, args: &Args) {
                     (0, 1, "empty-map")
                 } else {
                     let (s, l, _) = *r.pick(&model);
-                    match r.below(8) {
+                    match r.below(11) {
+                        8 => (s, l.div_ceil(4096) * 4096 + if l % 4096 == 0 { 4096 } else { 0 }, "size-rounded-to-4KiB"),
+                        9 => (s, l.div_ceil(2 << 20) * (2 << 20) + if l % (2 << 20) == 0 { 2 << 20 } else { 0 }, "size-rounded-to-2MiB"),
+                        10 => (s, l.div_ceil(1 << 30) * (1 << 30), "size-rounded-to-1GiB"),
                         0 => (s, l + 1, "size+1"),
                         1 => (s, l.saturating_sub(1), "size-1"),
                         2 => (s + 1, l, "start+1"),
